@@ -131,6 +131,9 @@ class Lane(object):
         pass
     _, st = os.waitpid(pid, 0)
     shutil.rmtree(rdir, ignore_errors=True)
+    aft = getattr(self.props[job['prop']], 'after_job', None)
+    if aft is not None:
+      aft(self)
     if timed_out:
       return {'status': 'harness_error', 'detail': 'wall timeout %ss' % timeout, 'timeout': True}
     try:
